@@ -544,3 +544,55 @@ Example guard_vs_reload_nontrivial :
   h_wwait (hrun hinit [1; 0]%nat) = true /\ h_quiet (hrun hinit [1; 0; 0; 1; 0]%nat) = true
   /\ d_p1 (drun dinit [0; 1]%nat) = 1%nat /\ d_quiet (drun dinit [0; 1; 0]%nat) = true.
 Proof. vm_compute. repeat split; reflexivity. Qed.
+
+(* ------------------------------------------------------------------------------------ *)
+(** * (g) await vs a user's write guard (F-C19-g, fixed) *)
+
+Definition WOk (s : wst) : Prop :=
+  (w_val s = 1 \/ w_val s = 7)
+  /\ (w_held s = true <-> w_p0 s = 1%nat)
+  /\ match w_a s with
+     | UParked w => w = true
+     | UBlocked => w_held s = true
+     | UDone v => v = 1 \/ v = 7
+     | U0 => True
+     end.
+
+Lemma WOk_step kind t s : WOk s -> WOk (wstep true kind t s).
+Proof.
+  intros (Hv & Hh & Ha). unfold WOk. destruct t as [|[|t]]; cbn; [| |repeat split; auto; apply Hh].
+  - destruct (w_p0 s) as [|[|n]] eqn:Hp; destruct (w_a s) eqn:Ea; cbn; rewrite ?Hp, ?Ea;
+      repeat split; intros;
+      try solve [auto | discriminate | tauto | (right; reflexivity) | intuition congruence].
+  - destruct (w_a s) as [|[|]| |v] eqn:Ea; destruct (w_held s) eqn:Eh; destruct kind; cbn;
+      rewrite ?Ea, ?Eh; repeat split; intros;
+      try solve [auto | discriminate | tauto | (right; reflexivity) | intuition congruence].
+Qed.
+
+Lemma WOk_run kind sched : forall s, WOk s -> WOk (wrun true kind s sched).
+Proof. induction sched as [|t r IH]; intros s H; cbn; auto. apply IH, WOk_step, H. Qed.
+
+(** with the fix: for every kind of future and every schedule, once nothing can move the
+    awaiter has resumed with the value before or after the user's write *)
+Theorem await_vs_write_guard :
+  forall kind sched, let s := wrun true kind winit sched in
+    w_terminal s -> exists v, w_a s = UDone v /\ (v = 1 \/ v = 7).
+Proof.
+  intros kind sched s [Hp Ht].
+  assert (H : WOk s) by (apply WOk_run; repeat split; cbn; auto; discriminate).
+  destruct H as (Hv & Hh & Ha). destruct (w_a s) as [|[|]| |v] eqn:E; try contradiction.
+  - discriminate.
+  - destruct Hh as [H _]. specialize (H Ha). congruence.
+  - eauto.
+Qed.
+
+(** before the fix: the awaiter polls while the guard is held and is never woken *)
+Example await_vs_write_guard_prefix_refuted :
+  exists sched, let s := wrun false 1 winit sched in
+    w_terminal s /\ w_a s = UParked false.
+Proof. exists [0; 1; 0]%nat. cbn. repeat split; auto. Qed.
+
+Example await_vs_write_guard_nontrivial :
+  w_terminal (wrun true 1 winit [0; 1; 1; 0; 1]%nat) /\ w_a (wrun true 1 winit [0; 1; 1; 0; 1]%nat) = UDone 7
+  /\ w_polls (wrun true 1 winit [0; 1; 1; 0; 1]%nat) = 3%nat.
+Proof. cbn. repeat split; auto. Qed.
